@@ -33,23 +33,23 @@ def scale(profiles, k):
     return [(n, c * k) for n, c in profiles]
 
 
-Q01 = [("mailbox", 30000), ("backpressure", 8000), ("lifecycle", 8000), ("owning", 4000), ("burst", 3000)]
-Q02 = [("mailbox", 16000), ("lifecycle", 16000), ("owning", 10000), ("backpressure", 4000), ("timeout", 6000), ("restart", 6000), ("faults+faults", 250), ("lifecycle+faults", 250)]
-Q03 = [("lifecycle", 24000), ("owning", 8000), ("handles", 6000), ("mailbox", 4000), ("stream", 8000), ("restart", 6000), ("timeout", 6000)]
-Q04 = [("lifecycle", 30000), ("owning", 12000), ("mailbox", 6000), ("backpressure", 4000), ("timeout", 8000), ("restart", 4000), ("faults+faults", 250), ("lifecycle+faults", 250)]
-Q05 = [("handles", 24000), ("lifecycle", 12000), ("owning", 6000), ("mailbox", 4000), ("broker", 8000), ("stream", 6000), ("timers", 6000), ("tree", 8000), ("svckeep", 6000)]
-Q12 = [("backpressure", 30000), ("mailbox", 10000), ("lifecycle", 4000)]
-Q17 = [("owning", 30000), ("lifecycle", 10000), ("mailbox", 4000), ("timeout", 8000), ("restart", 8000)]
+Q01 = [("mailbox", 30000), ("backpressure", 8000), ("lifecycle", 8000), ("owning", 4000), ("burst", 3000), ("mix", 10000)]
+Q02 = [("mailbox", 16000), ("lifecycle", 16000), ("owning", 10000), ("backpressure", 4000), ("timeout", 6000), ("restart", 6000), ("faults+faults", 250), ("lifecycle+faults", 250), ("mix", 10000), ("mix+faults", 150)]
+Q03 = [("lifecycle", 24000), ("owning", 8000), ("handles", 6000), ("mailbox", 4000), ("stream", 8000), ("restart", 6000), ("timeout", 6000), ("mix", 10000)]
+Q04 = [("lifecycle", 30000), ("owning", 12000), ("mailbox", 6000), ("backpressure", 4000), ("timeout", 8000), ("restart", 4000), ("faults+faults", 250), ("lifecycle+faults", 250), ("mix", 10000), ("mix+faults", 150)]
+Q05 = [("handles", 24000), ("lifecycle", 12000), ("owning", 6000), ("mailbox", 4000), ("broker", 8000), ("stream", 6000), ("timers", 6000), ("tree", 8000), ("svckeep", 6000), ("mix", 10000)]
+Q12 = [("backpressure", 30000), ("mailbox", 10000), ("lifecycle", 4000), ("mix", 10000)]
+Q17 = [("owning", 30000), ("lifecycle", 10000), ("mailbox", 4000), ("timeout", 8000), ("restart", 8000), ("mix", 10000)]
 
-Q07 = [("restart", 30000), ("lifecycle", 12000), ("kinds", 4000)]
-Q10 = [("timers", 30000), ("restart", 6000), ("handles", 6000), ("kinds", 6000), ("lifecycle", 4000), ("timeout", 10000), ("backpressure", 6000)]
-Q11 = [("timeout", 40000), ("mailbox", 8000), ("lifecycle", 8000), ("backpressure", 4000)]
-Q13 = [("stream", 30000), ("lifecycle", 10000), ("owning", 6000)]
-Q14 = [("liveness", 30000), ("lifecycle", 10000), ("handles", 6000), ("faults+faults", 200)]
-Q15 = [("kinds", 30000), ("handles", 12000), ("restart", 4000), ("lifecycle", 4000)]
+Q07 = [("restart", 30000), ("lifecycle", 12000), ("kinds", 4000), ("mix", 10000)]
+Q10 = [("timers", 30000), ("restart", 6000), ("handles", 6000), ("kinds", 6000), ("lifecycle", 4000), ("timeout", 10000), ("backpressure", 6000), ("mix", 10000)]
+Q11 = [("timeout", 40000), ("mailbox", 8000), ("lifecycle", 8000), ("backpressure", 4000), ("mix", 10000)]
+Q13 = [("stream", 30000), ("lifecycle", 10000), ("owning", 6000), ("mix", 10000)]
+Q14 = [("liveness", 30000), ("lifecycle", 10000), ("handles", 6000), ("faults+faults", 200), ("mix", 10000)]
+Q15 = [("kinds", 30000), ("handles", 12000), ("restart", 4000), ("lifecycle", 4000), ("mix", 10000)]
 
-Q06 = [("faults+faults", 700), ("tree+faults", 500), ("svcfaults+faults", 300), ("lifecycle+faults", 300), ("timeout", 8000)]
-Q16 = [("tree", 30000), ("tree+faults", 300), ("faults", 4000)]
+Q06 = [("faults+faults", 700), ("tree+faults", 500), ("svcfaults+faults", 300), ("lifecycle+faults", 300), ("timeout", 8000), ("mix+faults", 200)]
+Q16 = [("tree", 30000), ("tree+faults", 300), ("faults", 4000), ("mix", 10000)]
 
 Q08 = [("registry", 40000), ("liveness", 6000), ("svcfaults", 2000), ("svckeep", 6000)]
 Q09 = [("broker", 40000)]
@@ -59,45 +59,45 @@ PLANS = {
                 ">=2 clients submitted and both the waiting and the forcing path were used",
                 ["C01.R1", "C01.R2", "C01.R3.cross_client.wait_force", "C01.R3.cross_client.force_wait",
                  "C01.R3.same_client.wait_force", "C01.R3.same_client.force_wait", "C01.R4.fold", "C01.R4.reply", "C01.R4.join", "C01.R5.burst_in_order", "C01.R5.burst_messages", "C01.R5.burst_count"],
-                mt=[('mailbox', 400), ('backpressure', 120), ('burst', 480)], mt_required=['L2:C01.R1', 'L2:C01.R3.cross_client.wait_force', 'L2:C01.R4.reply', 'L2:C01.R5.burst_in_order', 'L2:C01.R5.burst_count']),
+                mt=[('mailbox', 400), ('backpressure', 120), ('burst', 480), ('mix', 160)], mt_required=['L2:C01.R1', 'L2:C01.R3.cross_client.wait_force', 'L2:C01.R4.reply', 'L2:C01.R5.burst_in_order', 'L2:C01.R5.burst_count']),
     "C02": plan(Q02, scale(Q02, 40),
                 ">=2 clients issued calls through >=2 handle kinds",
                 ["C02.R1", "C02.R2", "C02.R3", "C02.R4.resolved", "C02.R5.after_end", "C02.R5.await_after_end", "C02.R5.pending_across_end"],
-                mt=[('mailbox', 320), ('owning', 160)], mt_required=['L2:C02.R1', 'L2:C02.R3']),
+                mt=[('mailbox', 320), ('owning', 160), ('mix', 160)], mt_required=['L2:C02.R1', 'L2:C02.R3']),
     "C03": plan(Q03, scale(Q03, 40),
                 "an actor had >=1 restart, or terminated gracefully after a stop/drop/stream-end with >=1 message handled",
                 ["C03.R1.started_first", "C03.R2.nothing_after_stopped", "C03.R3.graceful_end", "C03.R3.finished_on_stream_actor", "C03.R3.cause_leads_to_stopped",
                  "C03.R4.restart_closes_incarnation"],
-                mt=[('lifecycle', 400), ('stream', 160)], mt_required=['L2:C03.R1.started_first', 'L2:C03.R2.nothing_after_stopped']),
+                mt=[('lifecycle', 400), ('stream', 160), ('mix', 160)], mt_required=['L2:C03.R1.started_first', 'L2:C03.R2.nothing_after_stopped']),
     "C04": plan(Q04, scale(Q04, 40),
                 "a submission was concurrent with, or begun after, a stop request",
                 ["C04.R1.send_before_stop_handled", "C04.R1.call_before_stop_ok", "C04.R2.after_stop_unhandled", "C04.R3.stop_terminates",
                  "C04.R4.await_after_stopped", "C04.R4.join_after_stopped", "C04.R5.await_result"],
-                mt=[('lifecycle', 400), ('owning', 240)], mt_required=['L2:C04.R2.after_stop_unhandled', 'L2:C04.R4.await_after_stopped']),
+                mt=[('lifecycle', 400), ('owning', 240), ('mix', 160)], mt_required=['L2:C04.R2.after_stop_unhandled', 'L2:C04.R4.await_after_stopped']),
     "C05": plan(Q05, scale(Q05, 40),
                 "the last strong handle of an actor was dropped while it was running, or a weak handle was upgraded after that",
                 ["C05.R1.no_termination_while_held", "C05.R1.child_list_keeps_alive", "C05.R1.registry_keeps_alive", "C05.R2.last_drop_terminates", "C05.R2.with_live_timers", "C05.R2.accepted_then_handled",
                  "C05.R2.exact_time", "C05.R2.quiescent_invariant", "C05.R3.upgrade_after_last_drop", "C05.R3.monotone"],
-                mt=[('handles', 480)], mt_required=['L2:C05.R3.upgrade_after_last_drop']),
+                mt=[('handles', 480), ('mix', 160)], mt_required=['L2:C05.R3.upgrade_after_last_drop']),
     "C12": plan(Q12, scale(Q12, 40),
                 "a send on a bounded mailbox returned Pending at least once (backpressure was exerted)",
                 ["C12.R1.send_returned", "C12.R2.send_resolves", "C12.R3.unbounded_never_waits", "C12.R4.stop_while_full"],
-                mt=[('backpressure', 640)], mt_required=['L2:C12.R1.send_returned', 'L2:C12.R3.unbounded_never_waits']),
+                mt=[('backpressure', 640), ('mix', 160)], mt_required=['L2:C12.R1.send_returned', 'L2:C12.R3.unbounded_never_waits']),
     "C17": plan(Q17, scale(Q17, 40),
                 "a join/consume yielded the actor, or an OwningAddr was detached",
                 ["C17.R1.join_after_stopped", "C17.R1.first_join_result", "C17.R2.final_state", "C17.R3.at_most_once", "C17.R3.unpolled_join_takes_nothing", "C17.R4.join_resolves",
                  "C17.R6.detach_keeps_running"],
-                mt=[('owning', 480)], mt_required=['L2:C17.R2.final_state', 'L2:C17.R3.at_most_once']),
+                mt=[('owning', 480), ('mix', 160)], mt_required=['L2:C17.R2.final_state', 'L2:C17.R3.at_most_once']),
     "C07": plan(Q07, scale(Q07, 40),
                 "at least one restart request (Addr::restart or Context::restart) was accepted",
                 ["C07.R1.handles_survive", "C07.R2.incarnation_of_message", "C07.R3.restart_count", "C07.R3.strategy_model",
                  "C07.R3.state_carried_or_reset", "C07.R3.non_restartable_ignores", "C07.R3.non_restartable_timers_unaffected", "C07.R4.started_error_fails", "C07.R5.old_timers_silent"],
-                mt=[('restart', 480)], mt_required=['L2:C07.R2.incarnation_of_message', 'L2:C07.R3.strategy_model']),
+                mt=[('restart', 480), ('mix', 160)], mt_required=['L2:C07.R2.incarnation_of_message', 'L2:C07.R3.strategy_model']),
     "C10": plan(Q10, scale(Q10, 40),
                 "a periodic timer delivered at least twice, or an actor terminated while its timers were pending",
                 ["C10.R1.not_before_period", "C10.R1.interval_with_spacing", "C10.R2.interval_count_on_busy_actor", "C10.R2.exact_schedule", "C10.R3.delayed_at_most_once", "C10.R4.nothing_after_end",
                  "C10.R5.timers_do_not_prolong", "C10.R6.timer_tasks_end"],
-                mt=[('timers', 480)], mt_required=['L2:C10.R1.not_before_period', 'L2:C10.R3.delayed_at_most_once']),
+                mt=[('timers', 480), ('mix', 160)], mt_required=['L2:C10.R1.not_before_period', 'L2:C10.R3.delayed_at_most_once']),
     "C11": plan(Q11, scale(Q11, 40),
                 "an invocation needed more virtual time than the configured timeout",
                 ["C11.R1.below_limit_completes", "C11.R2.above_limit_abandoned", "C11.R2.caller_gets_error", "C11.R3.continues_after_timeout",
@@ -106,7 +106,7 @@ PLANS = {
                 "a stream-attached actor handled both stream items and messages, or was stopped/dropped while its stream was endless",
                 ["C13.R1.items_exactly_once_in_order", "C13.R1.items", "C13.R2.messages_in_order", "C13.R3.never_abandoned", "C13.R4.terminates",
                  "C13.R4.terminates_despite_endless_stream", "C13.R4.await_ok", "C13.R5.bounded_progress_after_stop"],
-                mt=[('stream', 480)], mt_required=['L2:C13.R1.items_exactly_once_in_order']),
+                mt=[('stream', 480), ('mix', 160)], mt_required=['L2:C13.R1.items_exactly_once_in_order']),
     "C14": plan(Q14, scale(Q14, 40),
                 "stopped()/running() was queried after the actor task had ended, or a registry operation followed an un-awaited termination",
                 ["C14.R1.running_before_termination", "C14.R2.stopped_after_termination", "C14.R3.from_registry_returns_live_instance",
@@ -115,7 +115,7 @@ PLANS = {
                 "a context operation, weak upgrade or timer was observed while neither an Addr nor an OwningAddr was alive",
                 ["C15.R1.ctx_stop_ok", "C15.R2.ctx_restart_ok", "C15.R3.timers_keep_firing", "C15.R4.upgrade_while_strong",
                  "C15.R5.same_actor_through_conversions"],
-                mt=[('kinds', 480)], mt_required=['L2:C15.R1.ctx_stop_ok', 'L2:C15.R4.upgrade_while_strong', 'L2:C15.R5.same_actor_through_conversions']),
+                mt=[('kinds', 480), ('mix', 160)], mt_required=['L2:C15.R1.ctx_stop_ok', 'L2:C15.R4.upgrade_while_strong', 'L2:C15.R5.same_actor_through_conversions']),
     "C06": plan(Q06, scale(Q06, 40),
                 "a fault was injected and hit (every run except the fault-free base run of each program)",
                 ["C06.R1.ops_resolved", "C06.R1.later_ops_err", "C06.R1.pending_ops_err", "C06.R2.await_err", "C06.R2.join_none",
@@ -133,7 +133,7 @@ PLANS = {
                 ["C16.R1.child_outlives_until_parent_ends", "C16.R2.released_child_stops_gracefully", "C16.R2.accepted_messages_handled",
                  "C16.R2.child_held_outside_keeps_running", "C16.R3.broadcast_exactly_once", "C16.R3.only_registered_children",
                  "C16.R3.not_to_other_types", "C16.R3.unit_broadcast_count"],
-                mt=[('tree', 480)], mt_required=['L2:C16.R3.broadcast_exactly_once']),
+                mt=[('tree', 480), ('mix', 160)], mt_required=['L2:C16.R3.broadcast_exactly_once']),
     "C08": plan(Q08, scale(Q08, 40),
                 "a history in which at least two registry operations of one service type overlapped in time",
                 ["C08.R1.history_linearizable", "C08.R1.concurrent_history", "C08.R_once.default_spawns", "C08.ops.lookup", "C08.ops.register_ok",
@@ -144,14 +144,14 @@ PLANS = {
                          "with begin/return stamps and observed results, instance identities learnt from replies, instance terminations as instantaneous events) "
                          "is checked for linearizability against a sequential registry model by a memoised Wing-Gong search (2 s cap = inconclusive, counted); "
                          "distinct = distinct trace hash; non-trivial = two registry operations of one type overlapped"},
-                mt=[('registry', 960)], mt_required=['L2:C08.R1.history_linearizable', 'L2:C08.R1.concurrent_history']),
+                mt=[('registry', 960), ('mix', 160)], mt_required=['L2:C08.R1.history_linearizable', 'L2:C08.R1.concurrent_history']),
 
     "C09": plan(Q09, scale(Q09, 40),
                 ">=2 publishers with overlapping publications on a topic, or a subscription change / subscriber termination racing a publish",
                 ["C09.R1.subscribed_exactly_once", "C09.R1.resubscribed_still_once", "C09.R2.not_subscribed_zero", "C09.R3.at_most_once",
                  "C09.R4.common_order", "C09.R4.publisher_order_edges", "C09.R5.subscriber_dies_while_subscribed", "C09.R6.publish_returns_ok",
                  "C09.R6.reaches_live_despite_dead"],
-                mt=[('broker', 640)], mt_required=['L2:C09.R2.not_subscribed_zero', 'L2:C09.R3.at_most_once', 'L2:C09.R4.common_order']),
+                mt=[('broker', 640), ('mix', 160)], mt_required=['L2:C09.R2.not_subscribed_zero', 'L2:C09.R3.at_most_once', 'L2:C09.R4.common_order']),
     "C18": {
         "engines": ["xrt"],
         "quick": {"xrt": 1},
